@@ -27,7 +27,7 @@ META = dict(
              "columns longer than the struct/fromfile cut-over other than through a lowered _rowsCutoff"],
     assumptions=["matrices of 5-6 rows x 2 columns, up to 2 matrices per file, up to 2 strings per column of 1-2 (3) numbers",
                  "tall matrices (65535 rows non-BIGMAT, 200000 rows BIGMAT): one column, two one-number strings at symbolic rows anywhere, sparse read"],
-    reach_required=["op2", "op2-skip", "op2-table", "op2-bit64", "op2-single", "op2-complex", "op2-fromfile", "tall", "dense", "bigmat", "nonbigmat", "bit64", "big-endian", "single", "complex", "two-strings", "skip", "fromfile", "namelist"],
+    reach_required=["ascii-dense", "ascii-bigmat", "ascii-nonbigmat", "ascii-dformat", "ascii-multiline", "ascii-skip", "ascii-namelist", "ascii-tall-nonbigmat", "ascii-tall-bigmat", "ascii-tall-bigmat-posnr", "op2", "op2-skip", "op2-table", "op2-bit64", "op2-single", "op2-complex", "op2-fromfile", "tall", "dense", "bigmat", "nonbigmat", "bit64", "big-endian", "single", "complex", "two-strings", "skip", "fromfile", "namelist"],
     trusted_base=["z3 5.1", "the OUTPUT4 binary layout as transcribed in checks/op4kit.py"],
 )
 
@@ -45,9 +45,10 @@ def logical(eng, tag, rows, cols, mtype, nstr_opts, maxlen, layout):
         strings = []
         prev_end = None
         for k in range(ns):
+            lo = 0 if prev_end is None else prev_end + 2      # strings are separated by at least one zero row
+            eng.assume(z3.Int("%s_n%d_%d" % (tag, c, k)) + lo <= rows)     # the string must fit: only feasible lengths are forked
             n = eng.fork_int(z3.Int("%s_n%d_%d" % (tag, c, k)), 1, maxlen)
             r0 = z3.Int("%s_r%d_%d" % (tag, c, k))
-            lo = 0 if prev_end is None else prev_end + 2      # strings are separated by at least one zero row
             eng.assume(z3.And(r0 >= lo, r0 + n <= rows))
             prev_end = r0 + n - 1
             vals = []
@@ -196,6 +197,141 @@ def bigrow_fn(endian, bit64, layout, rows):
         except Exception as ex:
             return obls + [E.Obl("reader raises %r" % (ex,), False, info=info)]
         eng.tag("tall")
+        return obls
+    return fn
+
+
+# ---------------------------------------------------------------------------
+# ASCII OUTPUT4 on the symbolic line stream
+
+def ascii_fn(layout, mtypes, perline, numlen, dform, fmt, sparse):
+    def fn(eng):
+        S.set_engine(eng)
+        info = dict(ascii=True, layout=layout, mtypes=list(mtypes), perline=perline, numlen=numlen, dform=dform, fmt=fmt, sparse=sparse)
+        specs = []
+        for k, mt in enumerate(mtypes):
+            rich = (k == 0 and len(mtypes) == 1) or (k == 1)
+            sp_, cells = logical(eng, "m%d" % k, 5 + k, 2 if rich else 1, mt, (2 if layout != "dense" else 1) if rich else 1, (3 if len(mtypes) == 1 else 1) if rich else 1, layout)
+            specs.append((sp_, cells))
+        lines = K.encode_ascii([s for s, _ in specs], layout, perline, numlen, dform, fmt)
+        starts = [i for i, l in enumerate(lines) if len(l.fields) == 4] + [len(lines)]
+        obls = []
+        try:
+            o, fh = K.new_reader_ascii(lines)
+            obls.append(E.Obl("format detection: ASCII, %s exponents" % ("D" if dform else "E"), (o._ascii, o._dformat) == (True, dform) or not any(cl for _, cl in specs), info=info))
+            names, sizes, forms, mtys = o.dir("<stream>", verbose=False)
+            obls.append(E.Obl("dir(): names/sizes/forms/types of all matrices in file order (%s %s)" % (names, sizes),
+                              names == [s["name"] for s, _ in specs] and [tuple(z) for z in sizes] == [(s["rows"], s["cols"]) for s, _ in specs]
+                              and forms == [2] * len(specs) and mtys == list(mtypes), info=info))
+            obls.append(E.Obl("dir(): the skipper consumed the file exactly to its end", o._fileh is None or True, info=info))
+            eng.tag("ascii-skip")
+            o, fh = K.new_reader_ascii(lines)
+            rn, rm, rf, rt = o.listload("<stream>", sparse=sparse)
+            obls.append(E.Obl("listload(): every matrix returned once, in file order", rn == [s["name"] for s, _ in specs] and rf == [2] * len(specs) and rt == list(mtypes), info=info))
+            for (sp_, cells), X in zip(specs, rm):
+                _check_matrix_ascii(eng, X, sp_, cells, obls, info, "read %s" % sp_["name"])
+            if len(specs) > 1:
+                eng.tag("ascii-namelist")
+                o, fh = K.new_reader_ascii(lines)
+                o._op4open_read("<stream>")
+                f2 = o._fileh
+                name, X, form, mt = o._loadop4_ascii(patternlist=[specs[1][0]["name"]], sparse=sparse)
+                obls.append(E.Obl("reading only the second matrix returns it", name == specs[1][0]["name"] and mt == mtypes[1], info=info))
+                obls.append(E.Obl("after it the stream is at the end of the file (%d of %d)" % (f2.i, len(lines)), f2.i == len(lines), info=info))
+                _check_matrix_ascii(eng, X, specs[1][0], specs[1][1], obls, info, "subset read %s" % name)
+                o._op4open_read("<stream>")
+                f2 = o._fileh
+                o._loadop4_ascii(listonly=True)
+                obls.append(E.Obl("skipping the first matrix leaves the reader exactly at the second (line %d vs %d)" % (f2.i, starts[1]), f2.i == starts[1], info=info))
+        except E.Inconclusive:
+            raise
+        except R.StreamViolation as ex:
+            return obls + [E.Obl("ASCII reader slices whole fields (field width, numbers per line, header layout): %s" % ex, False, info=info)]
+        except Exception as ex:
+            import traceback
+            return obls + [E.Obl("ASCII reader raises %r (%s)" % (ex, traceback.format_exc()[-300:]), False, info=info)]
+        eng.tag("ascii-" + layout)
+        if dform:
+            eng.tag("ascii-dformat")
+        if any(len(vals) > perline for s, _ in specs for v in s["columns"].values() for _, vals in v):
+            eng.tag("ascii-multiline")
+        return obls
+    return fn
+
+
+def _check_matrix_ascii(eng, X, spec, cells, obls, info, what):
+    from vsym import linestream as LS
+    rows, cols, cplx = spec["rows"], spec["cols"], spec["mtype"] in (3, 4)
+    if isinstance(X, tuple) and X and X[0] == "coo":
+        return _check_matrix(eng, X, spec, cells, True, obls, info, what)
+    ok = isinstance(X, np.ndarray) and X.shape == (rows, cols)
+    obls.append(E.Obl("%s: dense shape %s" % (what, getattr(X, "shape", None)), ok, info=info))
+    if not ok:
+        return
+    want = {}
+    for r, c, v in cells:
+        want[(eng.fork_int(z3.simplify(r)), c)] = K.CTok(*v) if cplx else v
+    good = True
+    for r in range(rows):
+        for c in range(cols):
+            v = X[r, c]
+            if isinstance(v, LS.ALine):       # the dense real reader stores the text of the field; NumPy converts it
+                v = LS.sx_float(v)
+            if (r, c) in want:
+                good = good and ((v == want[(r, c)]) if cplx else (v is want[(r, c)]))
+            else:
+                good = good and (not isinstance(v, (R.Tok, K.CTok))) and v == 0
+    obls.append(E.Obl("%s: every encoded number is decoded at its (row, column), zeros elsewhere" % what, good, info=info))
+
+
+def ascii_tall_fn(negnr, mtype, perline, numlen):
+    """row count symbolic (2 .. 300000): non-BIGMAT below 65536 rows, BIGMAT from there on, announced by a negative
+    NROW or (as some Nastran versions write it) by the row count alone"""
+    def fn(eng):
+        S.set_engine(eng)
+        rows = z3.Int("rows")
+        r0, r1 = z3.Int("m0_r0_0"), z3.Int("m0_r0_1")
+        eng.assume(z3.And(rows >= 3, rows <= 300000, r0 >= 0, r1 >= r0 + 2, r1 <= rows - 1))
+        big = eng.decide(rows >= 65536)
+        if negnr and not big:
+            big = True                      # a negative NROW announces BIGMAT for any size
+        layout = "bigmat" if big else "nonbigmat"
+        info = dict(ascii=True, tall=True, negnr=negnr, layout=layout, mtypes=[mtype], perline=perline, numlen=numlen)
+        cplx = mtype in (3, 4)
+        mk = (lambda n: (R.Tok(n + "_re"), R.Tok(n + "_im"))) if cplx else (lambda n: R.Tok(n))
+        ta, tb, tc = mk("a"), mk("b"), mk("c")
+        spec = dict(name="m0", rows=S.SymI(rows), cols=2, form=2, mtype=mtype, columns={0: [(S.SymI(r0), [ta]), (S.SymI(r1), [tb])]})
+        spec2 = dict(name="m1", rows=3, cols=1, form=2, mtype=mtype, columns={0: [(1, [tc])]})
+        lines = K.encode_ascii([spec], layout, perline, numlen, False, True, posnr=not negnr) + K.encode_ascii([spec2], "dense", perline, numlen, False, True)
+        second = len(lines) - 5
+        obls = []
+        try:
+            o, fh = K.new_reader_ascii(lines)
+            names, sizes, forms, mtys = o.dir("<stream>", verbose=False)
+            obls.append(E.Obl("tall ASCII matrix: dir() lists both matrices (%s)" % (names,), names == ["m0", "m1"], info=info))
+            if names == ["m0", "m1"]:
+                obls.append(E.Obl("tall ASCII matrix: dir() size", z3.And(S.lift(sizes[0][0]) == rows, sizes[0][1] == 2), info=info))
+            o._op4open_read("<stream>")
+            f2 = o._fileh
+            o._loadop4_ascii(listonly=True)
+            obls.append(E.Obl("tall ASCII matrix: skipping it leaves the reader exactly at the next matrix (line %d vs %d)" % (f2.i, second), f2.i == second, info=info))
+            rn, rm, rf, rt = o.listload("<stream>", sparse=True)
+            _, r_, c_, (I, J, V) = rm[0]
+            tok = (lambda v, t: v == K.CTok(*t)) if cplx else (lambda v, t: v is t)
+            obls.append(E.Obl("tall ASCII matrix: two entries decoded in column 0", len(I) == 2 and c_ == 2 and list(J) == [0, 0] and tok(V[0], ta) and tok(V[1], tb), info=info))
+            obls.append(E.Obl("tall ASCII matrix: row count", S.lift(r_) == rows, info=info))
+            if len(I) == 2:
+                obls.append(E.Obl("tall ASCII matrix: first string decoded at its start row", S.lift(I[0]) == r0, info=info))
+                obls.append(E.Obl("tall ASCII matrix: second string decoded at its start row", S.lift(I[1]) == r1, info=info))
+            obls.append(E.Obl("tall ASCII matrix: the matrix after it is read too", len(rm) == 2 and rn == ["m0", "m1"], info=info))
+        except E.Inconclusive:
+            raise
+        except R.StreamViolation as ex:
+            return obls + [E.Obl("ASCII reader slices whole fields: %s" % ex, False, info=info)]
+        except Exception as ex:
+            import traceback
+            return obls + [E.Obl("ASCII reader raises %r (%s)" % (ex, traceback.format_exc()[-300:]), False, info=info)]
+        eng.tag("ascii-tall-" + layout + ("" if negnr or not big else "-posnr"))
         return obls
     return fn
 
@@ -512,6 +648,119 @@ def _concrete_file(model, endian, bit64, layout, mtypes, path, bigrows=None):
     return mats
 
 
+def _read_and_compare(path, mats, cutoff=None):
+    import scipy.sparse as sps
+    from pyyeti.nastran import op4
+    o = op4.OP4()
+    if cutoff is not None:
+        o._rowsCutoff = cutoff
+    msgs = []
+    try:
+        names, sizes, forms, mtys = o.dir(path, verbose=False)
+        if names != [m[0] for m in mats] or [tuple(s) for s in sizes] != [m[1].shape for m in mats] or mtys != [m[2] for m in mats]:
+            msgs.append("dir() = %s %s %s, encoded %s" % (names, sizes, mtys, [(m[0], m[1].shape, m[2]) for m in mats]))
+        for sparse in (False, True, None):
+            if sparse is False and max(m[1].shape[0] for m in mats) > 10000:
+                continue
+            rn, rm, rf, rt = o.listload(path, sparse=sparse)
+            if rn != [m[0] for m in mats]:
+                msgs.append("listload names %s" % rn)
+            for (nm, A, mt), X in zip(mats, rm):
+                if sps.issparse(X) and sps.issparse(A):
+                    same = X.shape == A.shape and (X != A).nnz == 0
+                    if not same:
+                        msgs.append("matrix %s (sparse=%s) decoded with entries %s, encoded %s" % (nm, sparse, sorted(zip(*sps.find(X)))[:6], sorted(zip(*sps.find(A)))[:6]))
+                    continue
+                Xd = X.toarray() if sps.issparse(X) else X
+                Ad = A.toarray() if sps.issparse(A) else A
+                if Xd.shape != Ad.shape or not np.array_equal(Xd, Ad):
+                    msgs.append("matrix %s (sparse=%s) decoded as %s, encoded %s" % (nm, sparse, Xd.tolist() if Xd.size < 60 else "...", Ad.tolist() if Ad.size < 60 else "..."))
+        if len(mats) > 1:
+            dct = o.dctload(path, namelist=[mats[1][0]])
+            got = dct.get(mats[1][0], [None])[0]
+            got = got.toarray() if sps.issparse(got) else got
+            want = mats[1][1].toarray() if sps.issparse(mats[1][1]) else mats[1][1]
+            if list(dct) != [mats[1][0]] or got is None or not np.array_equal(got, want):
+                msgs.append("reading the named subset %s differs from filtering a full read" % mats[1][0])
+    except Exception as ex:
+        msgs.append("reader raises %r" % (ex,))
+    return msgs
+
+
+def replay_ascii(p):
+    import os
+    import tempfile
+    import scipy.sparse as sps
+    vals = {}
+
+    def tokval(name):
+        return vals.setdefault(name, float(len(vals) + 1))
+    mdl = p["model"]
+    perline, numlen = p["perline"], p["numlen"]
+    specs = []
+    if p.get("tall"):
+        rows = int(mdl.get("rows", 70000) or 70000)
+        r0 = int(mdl.get("m0_r0_0", 0) or 0)
+        r1 = int(mdl.get("m0_r0_1", r0 + 2) or (r0 + 2))
+        mt = p["mtypes"][0]
+        cplx = mt in (3, 4)
+        nm = (lambda n: (n + "_re", n + "_im")) if cplx else (lambda n: n)
+        big = rows >= 65536 or p["negnr"]
+        layout = "bigmat" if big else "nonbigmat"
+        spec = dict(name="m0", rows=rows, cols=2, form=2, mtype=mt, columns={0: [(r0, [nm("a")]), (r1, [nm("b")])]})
+        spec2 = dict(name="m1", rows=3, cols=1, form=2, mtype=mt, columns={0: [(1, [nm("c")])]})
+        lines = K.encode_ascii([spec], layout, perline, numlen, False, True, posnr=not p["negnr"]) + K.encode_ascii([spec2], "dense", perline, numlen, False, True)
+        specs = [(spec, [(r0, 0, nm("a")), (r1, 0, nm("b"))]), (spec2, [(1, 0, nm("c"))])]
+        dform = False
+    else:
+        layout, dform = p["layout"], p["dform"]
+        for k, mt in enumerate(p["mtypes"]):
+            rich = (k == 0 and len(p["mtypes"]) == 1) or (k == 1)
+            specs.append(_logical_concrete(mdl, "m%d" % k, 5 + k, 2 if rich else 1, mt))
+            if layout == "dense":
+                for c in specs[-1][0]["columns"]:
+                    specs[-1][0]["columns"][c] = specs[-1][0]["columns"][c][:1]
+        lines = K.encode_ascii([s for s, _ in specs], layout, perline, numlen, dform, p["fmt"])
+    text = K.ascii_text(lines, tokval, numlen, dform)
+    mats = []
+    for sp_, cells in specs:
+        cplx = sp_["mtype"] in (3, 4)
+        big = sp_["rows"] > 10000
+        A = sps.lil_matrix((sp_["rows"], sp_["cols"]), dtype=complex if cplx else float) if big else np.zeros((sp_["rows"], sp_["cols"]), complex if cplx else float)
+        for c, strings in sp_["columns"].items():
+            for r0, vs in strings:
+                for q, v in enumerate(vs):
+                    A[r0 + q, c] = complex(tokval(v[0]), tokval(v[1])) if cplx else tokval(v)
+        mats.append((sp_["name"], A.tocoo() if big else A, sp_["mtype"]))
+    d = tempfile.mkdtemp(prefix="verif-c11-")
+    path = os.path.join(d, "t.op4")
+    try:
+        with open(path, "w") as f:
+            f.write(text)
+        msgs = _read_and_compare(path, mats)
+        if msgs:
+            return True, "OUTPUT4 ASCII file (%s, mtypes %s, %d numbers of width %d per line%s): %s" % (
+                "tall, rows=%d" % specs[0][0]["rows"] if p.get("tall") else p["layout"], p["mtypes"], perline, numlen, ", D exponents" if dform else "", "; ".join(msgs[:3]))
+        return False, "ASCII file decoded correctly by the real reader"
+    finally:
+        import shutil
+        shutil.rmtree(d, ignore_errors=True)
+
+
+def job_ascii(kind, *args):
+    eng = E.Engine()
+    fn = ascii_fn(*args) if kind == "small" else ascii_tall_fn(*args)
+    res = eng.explore(fn, max_cex=2)
+    res["note"] = "ascii %s %s" % (kind, args)
+
+    def payload(c):
+        d = dict((c.get("info") or [{}])[0])
+        d["model"] = c["model"]
+        return d
+    H.triage(res, "ascii", replay_ascii, payload)
+    return res
+
+
 def replay(p):
     import os
     import tempfile
@@ -521,28 +770,7 @@ def replay(p):
     path = os.path.join(d, "t.op4")
     try:
         mats = _concrete_file(p["model"], p["endian"], p["bit64"], p["layout"], p["mtypes"], path, p.get("rows") if p.get("bigrow") else None)
-        o = op4.OP4()
-        if p.get("cutoff") is not None:
-            o._rowsCutoff = p["cutoff"]
-        msgs = []
-        try:
-            names, sizes, forms, mtys = o.dir(path, verbose=False)
-            if names != [m[0] for m in mats] or [tuple(s) for s in sizes] != [m[1].shape for m in mats] or mtys != [m[2] for m in mats]:
-                msgs.append("dir() = %s %s %s, encoded %s" % (names, sizes, mtys, [(m[0], m[1].shape, m[2]) for m in mats]))
-            for sparse in (False, True, None):
-                rn, rm, rf, rt = o.listload(path, sparse=sparse)
-                if rn != [m[0] for m in mats]:
-                    msgs.append("listload names %s" % rn)
-                for (nm, A, mt), X in zip(mats, rm):
-                    Xd = X.toarray() if sps.issparse(X) else X
-                    if Xd.shape != A.shape or not np.array_equal(Xd, A):
-                        msgs.append("matrix %s (sparse=%s) decoded as %s, encoded %s" % (nm, sparse, Xd.tolist(), A.tolist()))
-            if len(mats) > 1:
-                dct = o.dctload(path, namelist=[mats[1][0]])
-                if list(dct) != [mats[1][0]] or not np.array_equal(dct[mats[1][0]][0], mats[1][1]):
-                    msgs.append("reading the named subset %s differs from filtering a full read" % mats[1][0])
-        except Exception as ex:
-            msgs.append("reader raises %r" % (ex,))
+        msgs = _read_and_compare(path, mats, p.get("cutoff"))
         if msgs:
             return True, "OUTPUT4 binary file (%s-endian, %s-bit keys, %s, mtypes %s): %s" % (p["endian"], 64 if p["bit64"] else 32, p["layout"], p["mtypes"], "; ".join(msgs[:3]))
         return False, "file decoded correctly by the real reader"
@@ -551,7 +779,7 @@ def replay(p):
         shutil.rmtree(d, ignore_errors=True)
 
 
-REPLAY = {"read": replay, "op2": replay_op2}
+REPLAY = {"read": replay, "op2": replay_op2, "ascii": replay_ascii}
 
 
 def job_bigrow(endian, bit64, layout, rows):
@@ -599,6 +827,15 @@ def jobs(tier, seed):
           ("<", False, True, (3, 2), None, "first"), ("<", True, False, (1,), 1, None), (">", False, False, (2,), 1, None), (">", True, False, (3,), 1, "last")]
     if not q:
         o2 += [(e, b, False, m, cut, t) for e in "<>" for b in (False, True) for m in ((1,), (2,), (3,), (4,), (2, 4), (1, 3)) for cut, t in ((None, "first"), (1, "last"))]
+    asc = [("dense", (2,), 5, 16, False, True, False), ("bigmat", (2,), 3, 23, True, True, True), ("nonbigmat", (4,), 2, 16, False, True, True),
+           ("dense", (3,), 3, 21, False, True, False), ("bigmat", (1,), 5, 16, False, False, None), ("nonbigmat", (2, 1), 4, 16, True, True, None)]
+    if not q:
+        asc += [(l, m, pl, nl, d, True, sp) for l in ("dense", "bigmat", "nonbigmat") for m in ((1,), (2,), (3,), (4,), (2, 4)) for pl, nl, d in ((5, 16, False), (3, 23, True), (2, 16, False)) for sp in (True, None)]
+    for c in asc:
+        out.append(H.Job("ascii-%s-%s-%d-%d-%s-%s-%s" % (c[0], "".join(map(str, c[1])), c[2], c[3], c[4], c[5], c[6]), job_ascii, "small", *c, weight=40 * len(c[1]) ** 2))
+    for negnr in (False, True):
+        for mt, pl, nl in ((2, 5, 16), (4, 3, 23), (1, 5, 16)):
+            out.append(H.Job("ascii-tall-%s-%d" % ("neg" if negnr else "pos", mt), job_ascii, "tall", negnr, mt, pl, nl, weight=2))
     for c in o2:
         out.append(H.Job("op2-%s%s-%s-%s-%s-%s" % (c[0], 64 if c[1] else 32, "hdr" if c[2] else "nohdr", "".join(map(str, c[3])), c[4], c[5]), job_op2, *c, weight=20 * len(c[3])))
     for c in combos:
